@@ -1,0 +1,6 @@
+//go:build !verif
+
+package proxycore
+
+// verifYield marks a scheduling point for the verification harness; it is empty in normal builds.
+func verifYield(string) {}
